@@ -69,6 +69,15 @@ static void pack_case(rng_t *r) {
     varintDimensionUnpack(&r2, &c2, packed, dim);
     uint64_t r3, c3;
     varintDimensionUnpack_(r3, c3, packed, dim);
+    { /* the macro form with receivers of other integer types wide enough for a coordinate (every coordinate is < 2^32) */
+        uint32_t r32, c32;
+        varintDimensionUnpack_(r32, c32, packed, dim);
+        int64_t rs, cs;
+        varintDimensionUnpack_(rs, cs, packed, dim);
+        if (r32 != row || c32 != col || (uint64_t)rs != row || (uint64_t)cs != col) {
+            DFAIL("varintDimensionUnpack_", "pair-differs-from-packed", "rows=%" PRIu64 " cols=%" PRIu64 " dimension %d: uint32_t receivers (%u,%u), int64_t receivers (%" PRId64 ",%" PRId64 ")", row, col, (int)dim, r32, c32, rs, cs);
+        }
+    }
     if (r2 != row || c2 != col || r3 != row || c3 != col) {
         DFAIL("varintDimensionUnpack", "pair-differs-from-packed", "rows=%" PRIu64 " cols=%" PRIu64 " dimension %d packed %" PRIx64 " -> (%zu,%zu) macro (%" PRIu64 ",%" PRIu64 ")", row, col, (int)dim, packed, r2, c2, r3, c3);
     }
@@ -232,11 +241,20 @@ static void matrix_case(rng_t *r) {
             }
         } else if (k <= K_U8) {
             uint64_t v = gen_value(r);
+            uint64_t given = v;
             if (w < 8) v &= (1ULL << (8 * w)) - 1;
+            if (w < 8 && rng_chance(r, 1, 4)) {
+                /* a value with bits above the entry width (a negative number stored by plain conversion): the cell keeps
+                 * the low bytes, and no other cell may change */
+                given = v | (rng_chance(r, 1, 2) ? ~((1ULL << (8 * w)) - 1) : (gen_value(r) << (8 * w)));
+                STAT_INC("c10_unsigned_writes_with_bits_above_the_entry_width");
+            } else {
+                given = v;
+            }
             entry = "varintDimensionPairEntrySetUnsigned";
             g_ctx = entry;
             ref_le(expect + hl + cell * (size_t)w, v, w);
-            varintDimensionPairEntrySetUnsigned(gb.p, row, col, v, (varintWidth)w, d);
+            varintDimensionPairEntrySetUnsigned(gb.p, row, col, given, (varintWidth)w, d);
             readback_ok = varintDimensionPairEntryGetUnsigned(gb.p, row, col, (varintWidth)w, d) == v;
         } else if (k == K_FLOAT) {
             uint32_t bits = (uint32_t)rng_next(r);
